@@ -263,3 +263,18 @@ let () =
         if not (V.var_closed_ok v) then
           specfail id (Printf.sprintf "exported_variable_of_trusted_type:%s.%s" (str 2 f) (str 3 f))
         else ok id "variable_plain_type")
+
+(* gatevar id <vpkg> <vname> <fpkg> <frecv> <fname> <idx> <compile|nocompile> <error class> <source>
+   (harness/cmd/run/c19.go): a variable initialised from an exported identifier of the library, sliced at a run-time
+   index, is passed to a gate parameter.  The Go specification makes no slice of a variable a constant expression,
+   so the gate must refuse the program whatever the identifier is; a program that compiles IS a client that hands a
+   run-time value to a *FromConstant parameter. *)
+let () =
+  reg "gatevar" (fun f ->
+      let id = f.(1) in
+      if f.(8) = "compile" then specfail id "a_run_time_slice_of_an_exported_identifier_is_accepted_by_a_gate_parameter"
+      else begin
+        let cls = string_of_bytes (bytes_of_hex f.(9)) in
+        if cls = "cannot-use" || cls = "invalid-operation" then ok id ("+reject:" ^ cls)
+        else ok id ("rejected_for_another_reason:" ^ cls)
+      end)
